@@ -20,7 +20,7 @@ def bufs():
     global BUFS
     if BUFS is None:
         BUFS = dict(PE=yv.blob("PE32_FILE"), ELF=yv.blob("ELF32_FILE"), TXT1=TXT1, TXT0=b"nothing here!", EMPTY=b"", MANY=b"q" * 12,
-                    CHAIN=b"ab....yy ab")
+                    CHAIN=b"ab....yy ab", FIB=b"f" + b"a" * 10 + b" g" + b"a" * 12, FIB2=b"g" + b"a" * 12, FIBOK=b"zz faz gb zz")
     return BUFS
 
 
@@ -36,6 +36,8 @@ rule a2 { strings: $a = "abc" condition: #a == 2 and @a[1] == 3 }
 rule q { strings: $q = "q" $a = "abc" condition: $q or $a }
 rule re { strings: $r = /ab+c/ condition: $r }
 rule chain { strings: $h = { 61 62 [4-] 79 79 } condition: $h }
+rule fib { strings: $f = /f([a-c]{1,3}\\.?){1,4}z/ condition: $f }
+rule fib2 { strings: $g = /ga*a*a*a*a*b/ condition: $g }
 rule ispe { condition: pe.number_of_sections > 0 }
 rule peep { condition: defined pe.entry_point }
 rule iself { condition: defined elf.type }
@@ -54,7 +56,7 @@ def scan_cmd(buf, extra=""):
 def build_ops(w):
     """alphabet of operations; outcome positions are derived from the normal traces of this very tree"""
     ops = []
-    for b in ("PE", "ELF", "TXT1", "TXT0", "EMPTY", "MANY", "CHAIN"):
+    for b in ("PE", "ELF", "TXT1", "TXT0", "EMPTY", "MANY", "CHAIN", "FIB", "FIB2", "FIBOK"):
         ops.append(("scan:%s:normal" % b, scan_cmd(b)))
     w.batch(["reset"]); compile_rules(w)
     w.cmd("scanner 0 0")
@@ -262,7 +264,7 @@ def main():
     ck.cov["distinct_nontrivial"] = len(seen)
     for h in list(seen.values())[-3:]:
         ck.sample([ops[i][0] for i in h])
-    ck.cov["rule"] = ("alphabet = scans of {PE, ELF, text with/without matches, empty, 12 x 'q' (match limit 8), chained hex} x outcomes "
+    ck.cov["rule"] = ("alphabet = scans of {PE, ELF, text with/without matches, empty, 12 x 'q' (match limit 8), chained hex, a regex that exhausts the fiber pool (16) and one that does not} x outcomes "
                       "{normal, abort/error at every message index, timeout at every poll index (virtual clock), too-many-matches "
                       "abort/error, not-ready resumed/abandoned (text, ELF and PE through a two-block iterator)} + scanner-level defines; all sequences of length L unmerged, BFS to "
                       "depth D merged on the persistent fields of YR_SCAN_CONTEXT; oracle = same op on a fresh scanner with the same "
